@@ -27,7 +27,7 @@ n = len(metas)
 missed = [m["id"] for m in metas if not m["reported_by"]]
 text = """## 11. Seeded changes and which checks catch them
 
-%d changes were produced by 120 fresh sub-agents in six rounds of 20 (one agent per property and round). Round 1: three
+%d changes were produced by 140 fresh sub-agents in seven rounds of 20 (one agent per property and round). Round 1: three
 changes each, free choice. Round 2: two each, defects in the logic *around* the arithmetic - guards, dispatch, special
 cases, canonical form, configuration - rather than slips inside digit loops. Round 3: two each, changes that look like
 maintenance work - fast paths, refactors, rerouted API forms, type or cfg changes, std helpers with different edge
@@ -36,15 +36,19 @@ laws, wrapper vs implementation, documented return and panic conventions). Round
 fast paths, early exits, skipped work, in-place buffer reuse, cheaper special-case routines, normalisation or guards dropped
 because "the caller already did" (the style the earlier misses had in common). Round 6: two each, free choice again, run
 against the final machinery as a fresh estimate: 27 of its 40 were reported by the own property's check before anything was
-changed for them, 33 after the corrections listed at the end of this section. Each agent got only the property text and a
+changed for them, 33 after the corrections listed at the end of this section. Round 7: the same once more after those
+corrections: 33 of 40 reported fresh, nothing changed for them afterwards (the C08 agent of this round also reported defect D7
+of section 5 in the unmodified crate). Each agent got only the property text and a
 private worktree; every change compiles, passes the 165 baseline tests and comes with a demonstration that fails with the
 change and passes without. Each was re-confirmed here in a scratch copy (`nbsa/confirm_seed.sh`: demo on the clean tree,
 patch, demo again - also `--release` when the demo asks for it - then the whole suite) before being kept under
-`/verif/seeded/<Cxx-k>/` (k = 1..3 round 1, 4..5 round 2, 6..7 round 3, 8..9 round 4, 10..11 round 5, 12..13 round 6) with `patch.diff`, `demo.rs`,
+`/verif/seeded/<Cxx-k>/` (k = 1..3 round 1, 4..5 round 2, 6..7 round 3, 8..9 round 4, 10..11 round 5, 12..13 round 6, 14..15 round 7) with `patch.diff`, `demo.rs`,
 `notes.md`, `meta.json`. `nbsa/seedrun.sh <patch>` applies a change to a scratch copy and runs every claimed check;
 `meta.json.reported_by` is its output on the final machinery. Independent agents sometimes hit on the same edit (the
 `powsign` simplification, `BigInt::set_bit` without `normalize()`, `RandomBits` bypassing `gen_bigint`, `monty_modpow`'s
-padding, by-value `div_rem`'s guard order each occur two or three times); they are kept as produced.
+padding, by-value `div_rem`'s guard order each occur two or three times); they are kept as produced - with one exception:
+after the repair of D7 (section 5) one *context* line of `seeded/C08-1/patch.diff` and of `mutants/neutral_float_sticky_exit`
+was rebased onto the repaired tree (`bits -= digit_bits;`); the lines the patches add are untouched.
 
 | seed | change (first line of the author's notes) | reported by (rules of the seed's own property) |
 |---|---|---|
@@ -58,7 +62,11 @@ splitting, `sub_sign`'s trimming, result lengths in the two's-complement helpers
 in a signed remainder, a row window in `mac3`'s schoolbook leaf, a truncate-and-mask reduction for power-of-two moduli, a
 branch-free digit classifier that accepts two more characters, a new `nth` override of `U32Digits`, u128 additions split into
 steps or routed through the debug-asserting `add2`, a `bits() >> 5` length in Serialize (reported as undecided), the
-negative-power-of-two test of `to_signed_bytes_*` reading one digit, `unwrap_or(MAX)` in a scalar remainder. Five more
+negative-power-of-two test of `to_signed_bytes_*` reading one digit, `unwrap_or(MAX)` in a scalar remainder; from round 7:
+Toom-3 split lengths without their clamps, a case-fold classifier that accepts control characters, the big-base loop guard of
+`to_radix_digits_le` by digit count, an early break in `bitand_neg_neg`, a `bits() > MAX.count_ones()` early reject that
+excludes iN::MIN, an early-out of `assign_from_slice` on a zero top word, `leading_zeros() <= 32` for "high half is zero".
+Five more
 (C07-6, C10-6, C07-11, C13-2, C13-11) are bodies the abstract interpreter cannot decide; they were reported while "undecided"
 made a check fail and are notes since section 12.4.
 
